@@ -6,6 +6,7 @@ import (
 	"testing"
 
 	"github.com/mark3labs/flyt"
+	"pgregory.net/rapid"
 )
 
 // C18 — a successful run never yields the empty action, for any node kind.
@@ -167,7 +168,142 @@ func TestC18(t *testing.T) {
 			}
 		}
 	}
+	g := wfGen{MaxLeaves: 4, MaxFlows: 4, Actions: []string{"", "", "default", "a", "b"}, PErr: 15, PExecErr: 120, MaxN: 2, MaxVisits: 3, FuelMax: 14, MaxRuns: 2, PreferFlows: true, PBatch: 200}
+	rapidPart(r, "twin-structured", r.pick(2500, 60000), genC18Twin, checkC18Twin)
+	rapidPart(r, "twin-random", r.pick(2500, 60000), g.gen, checkC18Twin)
 	r.exhaustive(fmt.Sprintf("all node kinds/styles x exec path {succeeds, succeeds on retry, fallback recovers} (plain, base, function-style, flow-as-node, batch with 9 prep forms x n in 0..3 x c in 0..2 x with/without post x builder/*BatchNode) x post in {\"\", default, custom} x {run directly, routed step of a flow}: %d configurations", k))
 }
 
-func init() { registerReplay("C18", checkC18) }
+// ---------------------------------------------------------------------------------
+// "" == default at every depth (metamorphic twin): a generated arrangement of leaves of every
+// kind, batch members and flows nested up to depth 4, run AS A NODE through flyt.Run, and its
+// twin in which every post that answered "" answers "default" instead. C18 says the empty
+// action is reported as the default action by every kind of node, flows used as nodes included;
+// so whenever one of the two runs succeeds the other must succeed too, with the same callbacks
+// in the same order and the same (non-empty) final action. Runs in which both fail are not
+// compared (C18 speaks about successful runs only).
+
+func emptyToDefault(w *WF) WF {
+	t := *w
+	t.Nodes = make([]NodeSpec, len(w.Nodes))
+	for i, ns := range w.Nodes {
+		t.Nodes[i] = ns
+		if ns.Leaf != nil {
+			l := *ns.Leaf
+			l.Visits = append([]VisitScript(nil), ns.Leaf.Visits...)
+			for j := range l.Visits {
+				if l.Visits[j].Action == "" {
+					l.Visits[j].Action = string(flyt.DefaultAction)
+				}
+			}
+			t.Nodes[i].Leaf = &l
+		}
+	}
+	return t
+}
+
+func shapeStrings(tr []Ev) []string {
+	out := make([]string, len(tr))
+	for i, e := range tr {
+		out[i] = MEv{Leaf: e.Leaf, Visit: e.Visit, Phase: e.Phase, Attempt: e.Attempt}.String()
+		if e.RetErr != nil {
+			out[i] += "!"
+		}
+	}
+	return out
+}
+
+func checkC18Twin(t *testing.T, sc WF) Verdict {
+	if sc.recursive() {
+		return ok(false, "recursive-skipped")
+	}
+	tw := emptyToDefault(&sc)
+	xa, xb := newWfExec(&sc), newWfExec(&tw)
+	nontrivial := false
+	classes := map[string]bool{fmt.Sprintf("depth%d", sc.depth(sc.Root)): true}
+	for r := 0; r < sc.runs(); r++ {
+		ra := xa.runAsNode(context.Background())
+		rb := xb.runAsNode(context.Background())
+		// a run that panics (or that the executor stops as a runaway) is a run that did not succeed
+		if ra.Panic != "" {
+			ra.Err = fmt.Errorf("panic: %s", ra.Panic)
+		}
+		if rb.Panic != "" {
+			rb.Err = fmt.Errorf("panic: %s", rb.Panic)
+		}
+		ta, tb := xa.snapshot()[ra.Lo:ra.Hi], xb.snapshot()[rb.Lo:rb.Hi]
+		if ra.Err != nil && rb.Err != nil {
+			classes["both-fail"] = true
+			// the two executors must stay in step for the next run; they do unless the traces
+			// differ, and then later runs say nothing
+			if fmt.Sprint(shapeStrings(ta)) != fmt.Sprint(shapeStrings(tb)) {
+				return ok(nontrivial, "both-fail-diverged")
+			}
+			continue
+		}
+		empties, innerEnd := 0, false
+		for _, e := range ta {
+			if e.Phase == "post" && e.RetErr == nil && e.RetAct == "" {
+				empties++
+			}
+		}
+		if n := len(ta); n > 0 && ta[n-1].Phase == "post" && ta[n-1].RetAct == "" && sc.Nodes[sc.Root].Flow != nil {
+			innerEnd = true
+		}
+		if ra.Err == nil && ra.Action == "" {
+			return bad("C18:twin-empty-action", "run %d of a depth-%d arrangement used as a node succeeded with the empty action; callbacks %v", r, sc.depth(sc.Root), traceStrings(ta))
+		}
+		if rb.Err == nil && rb.Action == "" {
+			return bad("C18:twin-empty-action", "run %d of a depth-%d arrangement used as a node succeeded with the empty action; callbacks %v", r, sc.depth(sc.Root), traceStrings(tb))
+		}
+		if (ra.Err == nil) != (rb.Err == nil) {
+			return bad("C18:twin-outcome", "run %d: with posts answering \"\" err=%v (callbacks %v); with the same posts answering \"default\" err=%v (callbacks %v)", r, ra.Err, traceStrings(ta), rb.Err, traceStrings(tb))
+		}
+		sa, sb := shapeStrings(ta), shapeStrings(tb)
+		if fmt.Sprint(sa) != fmt.Sprint(sb) {
+			return bad("C18:twin-route", "run %d: with posts answering \"\" the callbacks were %v; with the same posts answering \"default\" they were %v - the empty action was not treated as the default action", r, traceStrings(ta), traceStrings(tb))
+		}
+		if ra.Action != rb.Action {
+			return bad("C18:twin-action", "run %d: final action %q with posts answering \"\", %q with the same posts answering \"default\"; callbacks %v", r, ra.Action, rb.Action, traceStrings(ta))
+		}
+		if empties > 0 {
+			nontrivial = true
+			classes["empty-action-in-successful-run"] = true
+		}
+		if empties > 1 {
+			classes["several-empty-actions"] = true
+		}
+		if innerEnd {
+			classes["flow-as-node-ends-on-empty-action"] = true
+		}
+	}
+	var cl []string
+	for c := range classes {
+		cl = append(cl, c)
+	}
+	sortStrings(cl)
+	return ok(nontrivial, append(cl, sc.batchClass()...)...)
+}
+
+// genC18Twin: C10's structured hierarchies (parents branch on the final action of inner flows)
+// over an alphabet in which the empty action is frequent.
+func genC18Twin(rt *rapid.T) WF {
+	w := genC10(rt)
+	for _, ns := range w.Nodes {
+		if ns.Leaf == nil {
+			continue
+		}
+		for j := range ns.Leaf.Visits {
+			if perMille(rt, 350, "mkempty") {
+				ns.Leaf.Visits[j].Action = ""
+			}
+		}
+	}
+	return w
+}
+
+func init() {
+	registerReplay("C18", checkC18)
+	registerReplaySub("C18", "twin-structured", checkC18Twin)
+	registerReplaySub("C18", "twin-random", checkC18Twin)
+}
